@@ -229,6 +229,12 @@ class SNum(CantSympify):
     # -- arithmetic: result tag learned from the real types on exemplars
     def _bin(self, other, op, top, swap=False):
         if not is_number(other):
+            if STANDINS["on"]:
+                import sympy
+                if isinstance(other, sympy.Basic):
+                    # SymPy boundary (C17): the proxy enters the expression as a stand-in symbol
+                    a, b = (other, standin(self)) if swap else (standin(self), other)
+                    return op(a, b)
             return NotImplemented
         a, b = (other, self) if swap else (self, other)
         try:
@@ -364,6 +370,59 @@ class SNum(CantSympify):
         if spec:
             raise Abort("format spec %r on a proxy" % spec)
         return self._text("format")
+
+
+STANDINS = {"on": False, "map": {}, "n": 0}
+
+
+def standin(x):
+    """a SymPy symbol standing for proxy x inside SymPy expressions (solve); mapped back by from_sympy"""
+    import sympy
+    for sym, px in STANDINS["map"].items():
+        if px is x:
+            return sym
+    STANDINS["n"] += 1
+    s = sympy.Symbol("bbvstandin%d" % STANDINS["n"], real=True)
+    STANDINS["map"][s] = x
+    return s
+
+
+def from_sympy(expr):
+    """value of a SymPy expression over stand-in symbols as a proxy.  Rational coefficients are kept exact
+    (the real code lets SymPy evaluate them; floats are reals in this model), so the tree is walked instead of
+    running lambdify-generated floating-point code."""
+    import sympy
+
+    def ev(e):
+        if e.is_Symbol:
+            if e not in STANDINS["map"]:
+                raise Abort("SymPy expression with a free symbol that is not a stand-in: %s" % e)
+            return STANDINS["map"][e]
+        if e.is_Integer:
+            return SNum(T.V("float", z3.RealVal(int(e))), float)
+        if e.is_Rational:
+            return SNum(T.V("float", z3.RealVal(int(e.p)) / z3.RealVal(int(e.q))), float)
+        if e.is_Float:
+            return SNum(T.const(float(e)), float)
+        if e.is_Add:
+            r = ev(e.args[0])
+            for a in e.args[1:]:
+                r = r + ev(a)
+            return r
+        if e.is_Mul:
+            r = ev(e.args[0])
+            for a in e.args[1:]:
+                r = r * ev(a)
+            return r
+        if e.is_Pow and e.args[1].is_Integer:
+            b, n = ev(e.args[0]), int(e.args[1])
+            r = SNum(T.V("float", z3.RealVal(1)), float)
+            for _ in range(abs(n)):
+                r = r * b
+            return r if n >= 0 else SNum(T.V("float", z3.RealVal(1)), float) / r
+        raise Abort("unsupported SymPy node %s" % type(e).__name__)
+
+    return ev(sympy.sympify(expr))
 
 
 # numpy calls these methods on object-dtype elements (np.sin(obj) -> obj.sin())
